@@ -545,7 +545,9 @@ func check(c Case) vk.Verdict {
 
 func genReq(t *rapid.T, c Case) Req {
 	r := Req{Method: rapid.SampledFrom([]string{"GET", "GET", "GET", "HEAD", "POST"}).Draw(t, "m"),
-		Path: rapid.SampledFrom([]string{"/a", "/b", "/c"}).Draw(t, "p"), V: rapid.SampledFrom([]string{"1", "1", "2"}).Draw(t, "v"),
+		Path: rapid.SampledFrom([]string{"/a", "/b", "/c", "/a", "/b",
+			// paths that end like the suffixes the middleware appends to its storage keys (method, "_body")
+			"/a_HEAD", "/a_body", "/a_GET"}).Draw(t, "p"), V: rapid.SampledFrom([]string{"1", "1", "2"}).Draw(t, "v"),
 		CC: rapid.SampledFrom([]string{"", "", "", "", "", "", "", "", "no-cache", "no-cache", "no-store", "no-store",
 			// directive names are case-insensitive, and a list needs no blank after the comma (RFC 9111 5.2, RFC 9110 5.6.1)
 			"No-Cache", "NO-STORE", "max-age=0,no-cache", "no-cache,no-store", "max-age=0, no-store"}).Draw(t, "cc"),
